@@ -881,8 +881,15 @@ impl<'a> Gen<'a> {
         }
         match t {
             Ty::Int => {
-                let it = self.iter_expr(&Ty::Int, depth - 1);
-                match self.tape.weighted(&[3, 2, 1, 1, 3]) {
+                let mut it = self.iter_expr(&Ty::Int, depth - 1);
+                let which = self.tape.weighted(&[3, 2, 1, 1, 3]);
+                if which <= 1 && self.tape.chance(1, 6) {
+                    // the iterator of the untyped empty literal: its element type is never at check
+                    // time and at run time, and the checker promises int for its sum and product
+                    self.label("sum/product over []~");
+                    it = Expr::Iter(Box::new(Expr::Array(vec![])));
+                }
+                match which {
                     0 => {
                         self.label("sum");
                         Expr::Post("$+", Box::new(it))
@@ -1790,6 +1797,45 @@ impl<'a> Gen<'a> {
             _ => {
                 // destructuring
                 self.label("destructuring");
+                let mut pool: Vec<Var> = self
+                    .visible()
+                    .into_iter()
+                    .filter(|v| !v.name.starts_with("tk") && v.name != "log" && !is_counter(&v.name) && v.ty != Ty::Never && !self.iterators.contains(&v.name))
+                    .collect();
+                if pool.len() >= 2 && self.tape.chance(1, 2) {
+                    // the swap / rotation idiom `(a, b) := (b, a)`: every component of the tuple reads the
+                    // old binding of a name the statement declares anew; now and then one is a constant
+                    self.label("destructuring swap / rotation");
+                    let n = if pool.len() >= 3 && self.tape.chance(1, 3) { 3 } else { 2 };
+                    let mut chosen = vec![];
+                    for _ in 0..n {
+                        let i = self.tape.below(pool.len());
+                        chosen.push(pool.remove(i));
+                    }
+                    let mut rhs: Vec<(Expr, Ty, bool)> = (0..n)
+                        .map(|i| {
+                            let v = &chosen[(i + 1) % n];
+                            (Expr::Var(v.name.clone()), v.ty.clone(), v.exact)
+                        })
+                        .collect();
+                    if self.tape.chance(1, 3) {
+                        let k = self.tape.below(n);
+                        let t = self.gen_scalar_ty();
+                        rhs[k] = (self.lit(&t), t, false);
+                    }
+                    let mut names = vec![];
+                    let mut items = vec![];
+                    for (v, (e, t, exact)) in chosen.iter().zip(rhs) {
+                        names.push(v.name.clone());
+                        items.push(e);
+                        if exact {
+                            self.declare_exact(&v.name, t);
+                        } else {
+                            self.declare(&v.name, t);
+                        }
+                    }
+                    return Some(Stmt::Destruct(names, Box::new(Stmt::Expr(Expr::Tuple(items)))));
+                }
                 let (ta, tb) = (self.gen_scalar_ty(), self.gen_scalar_ty());
                 let e = self.expr(&Ty::Tup(vec![ta.clone(), tb.clone()]), depth.saturating_sub(1));
                 let (na, nb) = (self.name_for_decl(), self.fresh_name("u"));
